@@ -500,6 +500,10 @@ class Evaluator:
                 return self.dom.s_cong(self.st, a, b, m)
             a, b, m = [self.as_int(self.ev(x, old)) for x in args]
             return self.dom.s_cong(self.st, a, b, m)
+        if name in ("min", "max"):
+            a, b = self.ev(args[0], old), self.ev(args[1], old)
+            ca, cb = self.conc(a), self.conc(b)
+            return min(ca, cb) if name == "min" else max(ca, cb)
         if name == "congw":
             # congruence with a ghost quotient: as a proof goal  a - b == m*k  for the given witness k (which may
             # name locals of the body); for callers it is the plain congruence
